@@ -79,6 +79,8 @@ def gen(rng: random.Random, tier: str):
             ops.insert(pos, rng.choice([["Z", rng.randrange(n), rng.choice(seps)], ["P", rng.randrange(n), None, "none"]]))
         tags = ["random", "n=%d" % n, "sep=" + sep] + [t for op in ops for t in U.op_tags(op)]
         cases.append(mk_case(U.mk_data("node", n, names, sep, ops), tags))
+    for d in U.drain_unhealthy():   # exploration met a store that is not a forest: let the tie and the oracle see it
+        cases.append(mk_case(d, ("explore-unhealthy",)))
     return cases
 
 
